@@ -1,6 +1,8 @@
 -- Root of the library: every model, spec and property module.
 import Corerad.Basic
+import Corerad.Props.C02
 import Corerad.Props.C05
+import Corerad.Props.C06
 import Corerad.Props.C12
 import Corerad.Props.C13
 import Corerad.Props.C14
